@@ -156,8 +156,13 @@ def rule_c_d(repo, chk):
     chk.ob('c', st.ref, 'serialisation re-runs the check (fields are mutable) before formatting', ok, loc(st, st.node), discr='checked-at-serialisation')
     # the check only looks at text (isinstance(value, str) filters): what is formatted must be the checked values themselves, and they must be text
     filt = any(isinstance(w, ast.comprehension) and any('isinstance' in src(i) and 'str' in src(i) for i in w.ifs) for w in ast.walk(chkf.node))
+    # the local holding the arguments that are joined into the line: the operand of `' '.join(…)` in the formatted result
+    av_ = 'args'
+    for c_ in calls_in(fmt):
+        if isinstance(c_.func, ast.Attribute) and c_.func.attr == 'join' and isinstance(c_.func.value, ast.Constant) and c_.args and isinstance(c_.args[0], ast.Name):
+            av_ = c_.args[0].id
     arg_defs = [n for n in gs.nodes if n.kind == 'stmt' and isinstance(n.ast, ast.Assign) and len(n.ast.targets) == 1 and isinstance(n.ast.targets[0], ast.Name)
-                and 'args' in Q.names_used(fmt) | {k.arg for k in getattr(fmt, 'keywords', [])} and src(n.ast.targets[0]) == 'args']
+                and src(n.ast.targets[0]) == av_]
     plain = bool(arg_defs) and all(src(n.ast.value).replace(' ', '') in ('self.args[:]', 'list(self.args)', 'self.args', 'self.args.copy()') for n in arg_defs)
     chk.ob('c', st.ref, 'the arguments formatted into the line are the checked `self.args` themselves (a copy), not a re-decoded or otherwise derived list',
            plain, loc(st, arg_defs[0].ast if arg_defs else st.node), detail='; '.join(src(n.ast) for n in arg_defs), discr='formatted-are-checked')
